@@ -43,8 +43,24 @@ def clean_value(ck: Checker, rid: str, f: FuncInfo, cfg: CFG, g: Guard, node: No
     ck.ob(rid, f, node.ast, bad is None, f'`{var}` may be {bad[1]} here (a path reaches this point knowing only {bad[0]})' if bad else f'{what}: on every path `{var}` has been tested not to be an Exception / RemoteException, or is the fresh result of the preprocess step ({len(S)} path condition(s) examined)')
 
 
+def preprocess_args_clean(ck: Checker, rid: str, f: FuncInfo, cfg: CFG, g: Guard):
+    """what is handed to the user's preprocess() is a genuine input: never an upstream failure (an
+    exception value or its RemoteException wrapper), which preprocess might tolerate and turn into a
+    'clean' element of a batch"""
+    n = 0
+    for node in cfg.nodes:
+        a = header_expr(node)
+        if a is None:
+            continue
+        for c in calls_in(a):
+            if dotted(c.func) == 'preprocess' and c.args and isinstance(c.args[0], ast.Name):
+                clean_value(ck, rid, f, cfg, g, node, c.args[0].id, "value handed to the user's preprocess()")
+                n += 1
+    ck.need(n >= 1, f'{f.key}: no preprocess call found')
+
+
 def run(ck: Checker):
-    ck.rule('C09-1', 'clean batches: values handed to the batch buffer / to Worker.stream are proven not to be exceptions or RemoteException wrappers; items appended to a batch are proven not to be the end marker (GUARD)', minimum=3)
+    ck.rule('C09-1', 'clean batches: values handed to the batch buffer / to Worker.stream are proven not to be exceptions or RemoteException wrappers; items appended to a batch are proven not to be the end marker; what is handed to preprocess is a genuine input (GUARD)', minimum=5)
     ck.rule('C09-2', 'size bound: a batch starts with one element, grows by one per counted iteration, under a strict `<` guard against batch_size (COUNT)', minimum=1)
     ck.rule('C09-3', 'exactly one destination per dequeued request in the collector: the batch buffer or the output queue, never both, never neither (COUNT)')
     ck.rule('C09-4', 'deadline shape: only the first get of a batch is untimed; later gets are bounded by a deadline computed after the first get from batch_wait_time; queue.Empty releases the partial batch at once', minimum=1)
@@ -65,8 +81,10 @@ def run(ck: Checker):
                 clean_value(ck, 'C09-1', f, cfg, g, n, c.args[0].elts[1].id, 'collector → batch buffer')
                 n1 += 1
     ck.need(n1 >= 1, f'{f.key}: no put of (uid, x) on the batch buffer')
+    preprocess_args_clean(ck, 'C09-1', f, cfg, g)
     f = mod.func('Worker._start_single.get_input')
     cfg, sc, g = guard_cfg(ck, f)
+    preprocess_args_clean(ck, 'C09-1', f, cfg, g)
     ny = 0
     for n in cfg.nodes:
         if n.extra.get('yield'):
